@@ -156,6 +156,9 @@ ApplyEvent(s, ev, env) ==
   CASE ev.a = "Shutdown" -> Res(s, <<>>, 0, TRUE, {})
     [] ev.a = "Market" ->
          Res([Heal(s, ev.ex, "market") EXCEPT !.inst[ev.inst + 1].priced = TRUE], <<>>, 0, FALSE, {})
+    \* a market item that carries no price of its own (one-sided or empty top of book, candle,
+    \* liquidation): the link is alive, whether the instrument has a price does not change
+    [] ev.a = "MarketNoPrice" -> Res(Heal(s, ev.ex, "market"), <<>>, 0, FALSE, {})
     [] ev.a = "MarketReconnecting"  -> Res(Down(s, ev.ex, "market"),  <<Plain("MarketDisconnect", ev.ex)>>, 0, FALSE, {})
     [] ev.a = "AccountReconnecting" -> Res(Down(s, ev.ex, "account"), <<Plain("AccountDisconnect", ev.ex)>>, 0, FALSE, {})
     [] ev.a = "OrderSnap" ->
@@ -232,7 +235,7 @@ Process(ev, env) ==
 
 IsCmd(a) == a \in {"SendOpens", "SendCancels", "CancelOrders", "ClosePositions"}
 
-MarketItem   == ~tick.terminal /\ \E ev \in {x \in EVENTS : x.a = "Market"}, env \in ENVS : Process(ev, env)
+MarketItem   == ~tick.terminal /\ \E ev \in {x \in EVENTS : x.a \in {"Market", "MarketNoPrice"}}, env \in ENVS : Process(ev, env)
 Disconnects  == ~tick.terminal /\ \E ev \in {x \in EVENTS : x.a \in {"MarketReconnecting", "AccountReconnecting"}}, env \in ENVS : Process(ev, env)
 AccountItem  == ~tick.terminal /\ \E ev \in {x \in EVENTS : x.a \in {"OrderSnap", "CancelResp", "Trade", "Balance"}}, env \in ENVS : Process(ev, env)
 TradingState == ~tick.terminal /\ \E ev \in {x \in EVENTS : x.a = "TradingState"}, env \in ENVS : Process(ev, env)
@@ -330,7 +333,7 @@ ConnStepA ==
            /\ st'.conn.ex[ev.ex + 1].market = st.conn.ex[ev.ex + 1].market
            /\ \A e \in DOMAIN st.conn.ex : e # ev.ex + 1 => st'.conn.ex[e] = st.conn.ex[e]
            /\ Notices = {Plain("AccountDisconnect", ev.ex)})
-     /\ (ev.a = "Market" => st'.conn.ex[ev.ex + 1].market = "Healthy")
+     /\ (ev.a \in {"Market", "MarketNoPrice"} => st'.conn.ex[ev.ex + 1].market = "Healthy")
      /\ (ev.a \in {"OrderSnap", "CancelResp", "Trade", "Balance"} => st'.conn.ex[ev.ex + 1].account = "Healthy")
      /\ (ev.a \notin {"MarketReconnecting", "AccountReconnecting"} => Notices = {})
 
